@@ -1,4 +1,1050 @@
-pub fn main(_args: &[String]) {
-    eprintln!("automata engine: not built yet");
-    std::process::exit(2);
+// Regular-language engine over an extended alphabet (Unicode scalar values + a few "knot" symbols).
+//
+//   pestfacts automata <spec.json>   ->  JSON on stdout
+//
+// spec = { "defs": {name: EXPR}, "compare": [{"id", "impl": EXPR, "rfc": EXPR}],
+//          "equiv": [{"id", "a": EXPR, "b": EXPR}], "overlap": [{"id", "a": EXPR, "b": EXPR}],
+//          "facts": [{"id", "e": EXPR}] }
+// EXPR = {"k":"eps"} | {"k":"set","r":[[lo,hi],..]} | {"k":"seq","xs":[..]} | {"k":"alt","xs":[..]}
+//      | {"k":"star","e":..} | {"k":"plus","e":..} | {"k":"opt","e":..} | {"k":"ref","n":name}
+//      | {"k":"tag","t":label,"e":..} | {"k":"and","a":..,"b":..} | {"k":"not","e":..} | {"k":"any"}
+//
+// compare: every divergence between L(impl) and L(rfc), keyed (direction, tags, symbol class), with a shortest witness.
+// equiv:   same, for two expressions that must be equal (side conditions of the method).
+// overlap: is L(a).Sigma* ∩ L(b).Sigma* non-empty? (prefix-comparability of PEG alternatives) + witness.
+// facts:   min length, can-start-with / can-end-with class lists of a language.
+use std::collections::{BTreeMap, BTreeSet, HashMap, VecDeque};
+
+// ---------------------------------------------------------------- tiny JSON reader
+#[derive(Debug, Clone)]
+pub enum Js {
+    Null,
+    Bool(bool),
+    Num(f64),
+    Str(String),
+    Arr(Vec<Js>),
+    Obj(BTreeMap<String, Js>),
+}
+
+struct P<'a> {
+    s: &'a [u8],
+    i: usize,
+}
+
+impl<'a> P<'a> {
+    fn ws(&mut self) {
+        while self.i < self.s.len() && (self.s[self.i] as char).is_ascii_whitespace() {
+            self.i += 1;
+        }
+    }
+    fn val(&mut self) -> Js {
+        self.ws();
+        match self.s[self.i] {
+            b'{' => {
+                self.i += 1;
+                let mut m = BTreeMap::new();
+                loop {
+                    self.ws();
+                    if self.s[self.i] == b'}' {
+                        self.i += 1;
+                        break;
+                    }
+                    if self.s[self.i] == b',' {
+                        self.i += 1;
+                        continue;
+                    }
+                    let k = match self.val() {
+                        Js::Str(s) => s,
+                        _ => panic!("key"),
+                    };
+                    self.ws();
+                    assert_eq!(self.s[self.i], b':');
+                    self.i += 1;
+                    let v = self.val();
+                    m.insert(k, v);
+                }
+                Js::Obj(m)
+            }
+            b'[' => {
+                self.i += 1;
+                let mut v = vec![];
+                loop {
+                    self.ws();
+                    if self.s[self.i] == b']' {
+                        self.i += 1;
+                        break;
+                    }
+                    if self.s[self.i] == b',' {
+                        self.i += 1;
+                        continue;
+                    }
+                    v.push(self.val());
+                }
+                Js::Arr(v)
+            }
+            b'"' => {
+                self.i += 1;
+                let mut out = String::new();
+                loop {
+                    let c = self.s[self.i];
+                    if c == b'"' {
+                        self.i += 1;
+                        break;
+                    }
+                    if c == b'\\' {
+                        self.i += 1;
+                        let e = self.s[self.i];
+                        self.i += 1;
+                        match e {
+                            b'n' => out.push('\n'),
+                            b't' => out.push('\t'),
+                            b'r' => out.push('\r'),
+                            b'b' => out.push('\u{8}'),
+                            b'f' => out.push('\u{c}'),
+                            b'u' => {
+                                let h = std::str::from_utf8(&self.s[self.i..self.i + 4]).unwrap();
+                                let cp = u32::from_str_radix(h, 16).unwrap();
+                                self.i += 4;
+                                out.push(char::from_u32(cp).unwrap_or('\u{fffd}'));
+                            }
+                            other => out.push(other as char),
+                        }
+                    } else {
+                        // utf-8 passthrough
+                        let start = self.i;
+                        let len = if c < 0x80 {
+                            1
+                        } else if c >> 5 == 0b110 {
+                            2
+                        } else if c >> 4 == 0b1110 {
+                            3
+                        } else {
+                            4
+                        };
+                        self.i += len;
+                        out.push_str(std::str::from_utf8(&self.s[start..start + len]).unwrap());
+                    }
+                }
+                Js::Str(out)
+            }
+            b't' => {
+                self.i += 4;
+                Js::Bool(true)
+            }
+            b'f' => {
+                self.i += 5;
+                Js::Bool(false)
+            }
+            b'n' => {
+                self.i += 4;
+                Js::Null
+            }
+            _ => {
+                let st = self.i;
+                while self.i < self.s.len() && (self.s[self.i] == b'-' || self.s[self.i] == b'+' || self.s[self.i] == b'.' || self.s[self.i] == b'e' || self.s[self.i] == b'E' || self.s[self.i].is_ascii_digit()) {
+                    self.i += 1;
+                }
+                Js::Num(std::str::from_utf8(&self.s[st..self.i]).unwrap().parse().unwrap())
+            }
+        }
+    }
+}
+
+impl Js {
+    fn get(&self, k: &str) -> &Js {
+        match self {
+            Js::Obj(m) => m.get(k).unwrap_or(&Js::Null),
+            _ => &Js::Null,
+        }
+    }
+    fn str(&self) -> &str {
+        match self {
+            Js::Str(s) => s,
+            _ => "",
+        }
+    }
+    fn arr(&self) -> &[Js] {
+        match self {
+            Js::Arr(v) => v,
+            _ => &[],
+        }
+    }
+    fn num(&self) -> u32 {
+        match self {
+            Js::Num(n) => *n as u32,
+            _ => 0,
+        }
+    }
+}
+
+fn jstr(s: &str) -> String {
+    let mut o = String::from("\"");
+    for c in s.chars() {
+        match c {
+            '"' => o.push_str("\\\""),
+            '\\' => o.push_str("\\\\"),
+            '\n' => o.push_str("\\n"),
+            '\r' => o.push_str("\\r"),
+            '\t' => o.push_str("\\t"),
+            c if (c as u32) < 0x20 => o.push_str(&format!("\\u{:04x}", c as u32)),
+            c => o.push(c),
+        }
+    }
+    o.push('"');
+    o
+}
+
+// ---------------------------------------------------------------- alphabet
+pub const MAXSYM: u32 = 0x110010; // scalars + up to 16 knot symbols
+
+struct Alphabet {
+    cuts: Vec<u32>, // sorted start points of classes; class i = [cuts[i], cuts[i+1]-1]
+}
+
+impl Alphabet {
+    fn class_of(&self, c: u32) -> usize {
+        match self.cuts.binary_search(&c) {
+            Ok(i) => i,
+            Err(i) => i - 1,
+        }
+    }
+    fn n(&self) -> usize {
+        self.cuts.len()
+    }
+    fn range(&self, cl: usize) -> (u32, u32) {
+        let lo = self.cuts[cl];
+        let hi = if cl + 1 < self.cuts.len() { self.cuts[cl + 1] - 1 } else { MAXSYM - 1 };
+        (lo, hi)
+    }
+    fn valid(&self, cl: usize) -> bool {
+        // surrogates are not symbols
+        let (lo, hi) = self.range(cl);
+        !(lo >= 0xD800 && hi <= 0xDFFF)
+    }
+    fn classes_of(&self, lo: u32, hi: u32) -> Vec<usize> {
+        let mut out = vec![];
+        let mut c = self.class_of(lo);
+        while c < self.n() && self.range(c).0 <= hi {
+            out.push(c);
+            c += 1;
+        }
+        out
+    }
+}
+
+fn collect_cuts(e: &Js, cuts: &mut BTreeSet<u32>) {
+    match e {
+        Js::Obj(m) => {
+            if e.get("k").str() == "set" {
+                for r in e.get("r").arr() {
+                    let a = r.arr();
+                    cuts.insert(a[0].num());
+                    cuts.insert(a[1].num() + 1);
+                }
+            }
+            for (_, v) in m {
+                collect_cuts(v, cuts);
+            }
+        }
+        Js::Arr(v) => {
+            for x in v {
+                collect_cuts(x, cuts);
+            }
+        }
+        _ => {}
+    }
+}
+
+// ---------------------------------------------------------------- tags
+// A transition carries a *set* of rule tags (interned); sets are unioned when transitions are merged by
+// determinisation / minimisation, so a divergence can always name the innermost grammar rules it happens in.
+struct Tags {
+    names: Vec<String>,
+    name_ids: HashMap<String, u32>,
+    sets: Vec<Vec<u32>>,
+    set_ids: HashMap<Vec<u32>, u32>,
+}
+
+impl Tags {
+    fn new() -> Tags {
+        let mut t = Tags { names: vec![], name_ids: HashMap::new(), sets: vec![], set_ids: HashMap::new() };
+        t.sets.push(vec![]);
+        t.set_ids.insert(vec![], 0);
+        t
+    }
+    fn single(&mut self, s: &str) -> u32 {
+        if s.is_empty() {
+            return 0;
+        }
+        let id = match self.name_ids.get(s) {
+            Some(i) => *i,
+            None => {
+                let i = self.names.len() as u32;
+                self.names.push(s.to_string());
+                self.name_ids.insert(s.to_string(), i);
+                i
+            }
+        };
+        self.intern(vec![id])
+    }
+    fn intern(&mut self, mut v: Vec<u32>) -> u32 {
+        v.sort();
+        v.dedup();
+        if let Some(i) = self.set_ids.get(&v) {
+            return *i;
+        }
+        let i = self.sets.len() as u32;
+        self.sets.push(v.clone());
+        self.set_ids.insert(v, i);
+        i
+    }
+    fn union(&mut self, a: u32, b: u32) -> u32 {
+        if a == b || b == 0 {
+            return a;
+        }
+        if a == 0 {
+            return b;
+        }
+        let mut v = self.sets[a as usize].clone();
+        v.extend(self.sets[b as usize].iter().copied());
+        self.intern(v)
+    }
+    fn show(&self, a: u32) -> Vec<String> {
+        self.sets[a as usize].iter().map(|i| self.names[*i as usize].clone()).collect()
+    }
+}
+
+// ---------------------------------------------------------------- NFA
+struct Nfa {
+    eps: Vec<Vec<usize>>,
+    tr: Vec<Vec<(usize, usize, u32)>>, // (class, target, tag set)
+    start: usize,
+    accept: usize,
+}
+
+struct Ctx<'a> {
+    al: &'a Alphabet,
+    defs: &'a BTreeMap<String, Js>,
+    tags: Tags,
+    memo: HashMap<String, Dfa>,
+}
+
+struct Builder {
+    eps: Vec<Vec<usize>>,
+    tr: Vec<Vec<(usize, usize, u32)>>,
+    depth: usize,
+}
+
+impl Builder {
+    fn new() -> Self {
+        Builder { eps: vec![], tr: vec![], depth: 0 }
+    }
+    fn st(&mut self) -> usize {
+        self.eps.push(vec![]);
+        self.tr.push(vec![]);
+        self.eps.len() - 1
+    }
+    fn finish(self, s: usize, a: usize) -> Nfa {
+        Nfa { eps: self.eps, tr: self.tr, start: s, accept: a }
+    }
+    // returns (start, accept)
+    fn build(&mut self, cx: &mut Ctx, e: &Js, tag: u32) -> (usize, usize) {
+        self.depth += 1;
+        if self.depth > 400 {
+            panic!("expression too deep (unexpected recursion through a non-knot rule?)");
+        }
+        let k = e.get("k").str().to_string();
+        let r = match k.as_str() {
+            "eps" => {
+                let s = self.st();
+                (s, s)
+            }
+            "set" => {
+                let s = self.st();
+                let t = self.st();
+                for r in e.get("r").arr() {
+                    let a = r.arr();
+                    for c in cx.al.classes_of(a[0].num(), a[1].num()) {
+                        if cx.al.valid(c) {
+                            self.tr[s].push((c, t, tag));
+                        }
+                    }
+                }
+                (s, t)
+            }
+            "seq" => {
+                let xs = e.get("xs").arr();
+                if xs.is_empty() {
+                    let s = self.st();
+                    (s, s)
+                } else {
+                    let (s0, mut cur) = self.build(cx, &xs[0], tag);
+                    for x in &xs[1..] {
+                        let (s, a) = self.build(cx, x, tag);
+                        self.eps[cur].push(s);
+                        cur = a;
+                    }
+                    (s0, cur)
+                }
+            }
+            "alt" => {
+                let s = self.st();
+                let t = self.st();
+                for x in e.get("xs").arr() {
+                    let (a, b) = self.build(cx, x, tag);
+                    self.eps[s].push(a);
+                    self.eps[b].push(t);
+                }
+                (s, t)
+            }
+            "star" | "plus" | "opt" => {
+                let (a, b) = self.build(cx, e.get("e"), tag);
+                let s = self.st();
+                let t = self.st();
+                self.eps[s].push(a);
+                self.eps[b].push(t);
+                if k != "plus" {
+                    self.eps[s].push(t);
+                }
+                if k != "opt" {
+                    self.eps[b].push(a);
+                }
+                (s, t)
+            }
+            "ref" => {
+                // a definition is compiled once to a minimal DFA (with tag sets) and embedded
+                let name = e.get("n").str().to_string();
+                if !cx.memo.contains_key(&name) {
+                    let d = cx.defs.get(&name).unwrap_or_else(|| panic!("undefined ref {}", name)).clone();
+                    let dfa = compile(cx, &d);
+                    cx.memo.insert(name.clone(), dfa);
+                }
+                let d = cx.memo.get(&name).unwrap().clone();
+                self.embed(cx, &d, tag)
+            }
+            "tag" => {
+                let t = cx.tags.single(e.get("t").str());
+                self.build(cx, e.get("e"), t)
+            }
+            "and" | "not" => {
+                let d = if k == "not" {
+                    let a = compile(cx, e.get("e"));
+                    a.complement()
+                } else {
+                    let a = compile(cx, e.get("a"));
+                    let b = compile(cx, e.get("b"));
+                    a.product(&b, &mut cx.tags, |x, y| x && y)
+                };
+                let d = d.minimize(&mut cx.tags);
+                self.embed(cx, &d, tag)
+            }
+            other => panic!("unknown expr kind {}", other),
+        };
+        self.depth -= 1;
+        r
+    }
+    fn embed(&mut self, cx: &mut Ctx, d: &Dfa, tag: u32) -> (usize, usize) {
+        let base: Vec<usize> = (0..d.n).map(|_| self.st()).collect();
+        let acc = self.st();
+        for q in 0..d.n {
+            for c in 0..d.nc {
+                let t = d.tr[q][c];
+                if t != usize::MAX && cx.al.valid(c) {
+                    let tg = if d.tg[q][c] == 0 { tag } else { d.tg[q][c] };
+                    self.tr[base[q]].push((c, base[t], tg));
+                }
+            }
+            if d.acc[q] {
+                self.eps[base[q]].push(acc);
+            }
+        }
+        (base[d.start], acc)
+    }
+}
+
+fn compile(cx: &mut Ctx, e: &Js) -> Dfa {
+    let mut b = Builder::new();
+    let (s, a) = b.build(cx, e, 0);
+    let n = b.finish(s, a);
+    Dfa::from_nfa(&n, cx.al, &mut cx.tags).minimize(&mut cx.tags)
+}
+
+// ---------------------------------------------------------------- DFA
+#[derive(Clone)]
+struct Dfa {
+    n: usize,
+    nc: usize,
+    tr: Vec<Vec<usize>>, // usize::MAX = no transition (dead)
+    tg: Vec<Vec<u32>>,   // tag set of each transition
+    acc: Vec<bool>,
+    start: usize,
+}
+
+impl Dfa {
+    fn from_nfa(n: &Nfa, al: &Alphabet, tags: &mut Tags) -> Dfa {
+        let nc = al.n();
+        let ns = n.eps.len();
+        // epsilon closures
+        let mut clo: Vec<Vec<usize>> = Vec::with_capacity(ns);
+        for s in 0..ns {
+            let mut seen = vec![s];
+            let mut mark: BTreeSet<usize> = BTreeSet::new();
+            mark.insert(s);
+            let mut i = 0;
+            while i < seen.len() {
+                let x = seen[i];
+                i += 1;
+                for &t in &n.eps[x] {
+                    if mark.insert(t) {
+                        seen.push(t);
+                    }
+                }
+            }
+            seen.sort();
+            clo.push(seen);
+        }
+        let mut ids: HashMap<Vec<usize>, usize> = HashMap::new();
+        let mut sets: Vec<Vec<usize>> = vec![];
+        let mut tr: Vec<Vec<usize>> = vec![];
+        let mut tg: Vec<Vec<u32>> = vec![];
+        let mut acc = vec![];
+        let mut q = VecDeque::new();
+        let sv = clo[n.start].clone();
+        ids.insert(sv.clone(), 0);
+        sets.push(sv);
+        tr.push(vec![usize::MAX; nc]);
+        tg.push(vec![0; nc]);
+        acc.push(false);
+        q.push_back(0usize);
+        let mut mark = vec![0u32; ns];
+        let mut stamp = 0u32;
+        while let Some(i) = q.pop_front() {
+            let cur = sets[i].clone();
+            acc[i] = cur.binary_search(&n.accept).is_ok();
+            // group transitions by class
+            let mut by: BTreeMap<usize, (Vec<usize>, u32)> = BTreeMap::new();
+            for &s in &cur {
+                for &(c, t, tagset) in &n.tr[s] {
+                    let e = by.entry(c).or_insert((vec![], 0));
+                    e.0.push(t);
+                    e.1 = tags.union(e.1, tagset);
+                }
+            }
+            for (c, (targets, tagset)) in by {
+                stamp += 1;
+                let mut v: Vec<usize> = vec![];
+                for t in targets {
+                    for &x in &clo[t] {
+                        if mark[x] != stamp {
+                            mark[x] = stamp;
+                            v.push(x);
+                        }
+                    }
+                }
+                v.sort();
+                let id = match ids.get(&v) {
+                    Some(id) => *id,
+                    None => {
+                        let id = sets.len();
+                        ids.insert(v.clone(), id);
+                        sets.push(v);
+                        tr.push(vec![usize::MAX; nc]);
+                        tg.push(vec![0; nc]);
+                        acc.push(false);
+                        q.push_back(id);
+                        id
+                    }
+                };
+                tr[i][c] = id;
+                tg[i][c] = tagset;
+            }
+        }
+        Dfa { n: sets.len(), nc, tr, tg, acc, start: 0 }
+    }
+
+    fn complement(&self) -> Dfa {
+        let mut d = self.clone();
+        let sink = d.n;
+        d.tr.push(vec![sink; d.nc]);
+        d.tg.push(vec![0; d.nc]);
+        d.acc.push(false);
+        d.n += 1;
+        for q in 0..d.n {
+            for c in 0..d.nc {
+                if d.tr[q][c] == usize::MAX {
+                    d.tr[q][c] = sink;
+                }
+            }
+        }
+        for q in 0..d.n {
+            d.acc[q] = !d.acc[q];
+        }
+        d
+    }
+
+    fn product(&self, o: &Dfa, tags: &mut Tags, f: impl Fn(bool, bool) -> bool) -> Dfa {
+        let nc = self.nc;
+        let mut ids: HashMap<(usize, usize), usize> = HashMap::new();
+        let mut st: Vec<(usize, usize)> = vec![];
+        let mut tr: Vec<Vec<usize>> = vec![];
+        let mut tg: Vec<Vec<u32>> = vec![];
+        let mut acc = vec![];
+        let mut q = VecDeque::new();
+        const D: usize = usize::MAX;
+        ids.insert((self.start, o.start), 0);
+        st.push((self.start, o.start));
+        tr.push(vec![D; nc]);
+        tg.push(vec![0; nc]);
+        acc.push(false);
+        q.push_back(0usize);
+        while let Some(i) = q.pop_front() {
+            let (a, b) = st[i];
+            let aa = a != D && self.acc[a];
+            let bb = b != D && o.acc[b];
+            acc[i] = f(aa, bb);
+            for c in 0..nc {
+                let ta = if a == D { D } else { self.tr[a][c] };
+                let tb = if b == D { D } else { o.tr[b][c] };
+                if ta == D && tb == D {
+                    continue;
+                }
+                let id = match ids.get(&(ta, tb)) {
+                    Some(id) => *id,
+                    None => {
+                        let id = st.len();
+                        ids.insert((ta, tb), id);
+                        st.push((ta, tb));
+                        tr.push(vec![D; nc]);
+                        tg.push(vec![0; nc]);
+                        acc.push(false);
+                        q.push_back(id);
+                        id
+                    }
+                };
+                tr[i][c] = id;
+                let x = if a == D { 0 } else { self.tg[a][c] };
+                let y = if b == D { 0 } else { o.tg[b][c] };
+                tg[i][c] = tags.union(x, y);
+            }
+        }
+        Dfa { n: st.len(), nc, tr, tg, acc, start: 0 }
+    }
+
+    fn live(&self) -> Vec<bool> {
+        let mut rev: Vec<Vec<usize>> = vec![vec![]; self.n];
+        for q in 0..self.n {
+            for c in 0..self.nc {
+                let t = self.tr[q][c];
+                if t != usize::MAX {
+                    rev[t].push(q);
+                }
+            }
+        }
+        let mut live = vec![false; self.n];
+        let mut stack: Vec<usize> = (0..self.n).filter(|&q| self.acc[q]).collect();
+        for &q in &stack {
+            live[q] = true;
+        }
+        while let Some(q) = stack.pop() {
+            for &p in &rev[q] {
+                if !live[p] {
+                    live[p] = true;
+                    stack.push(p);
+                }
+            }
+        }
+        live
+    }
+
+    fn minimize(&self, tags: &mut Tags) -> Dfa {
+        let live = self.live();
+        if !live[self.start] {
+            return Dfa { n: 1, nc: self.nc, tr: vec![vec![usize::MAX; self.nc]], tg: vec![vec![0; self.nc]], acc: vec![false], start: 0 };
+        }
+        let mut map = vec![usize::MAX; self.n];
+        let mut order = vec![];
+        let mut q = VecDeque::new();
+        map[self.start] = 0;
+        order.push(self.start);
+        q.push_back(self.start);
+        while let Some(s) = q.pop_front() {
+            for c in 0..self.nc {
+                let t = self.tr[s][c];
+                if t != usize::MAX && live[t] && map[t] == usize::MAX {
+                    map[t] = order.len();
+                    order.push(t);
+                    q.push_back(t);
+                }
+            }
+        }
+        let n = order.len();
+        let mut tr = vec![vec![usize::MAX; self.nc]; n];
+        let mut tg = vec![vec![0u32; self.nc]; n];
+        let mut acc = vec![false; n];
+        for (i, &s) in order.iter().enumerate() {
+            acc[i] = self.acc[s];
+            for c in 0..self.nc {
+                let t = self.tr[s][c];
+                if t != usize::MAX && live[t] {
+                    tr[i][c] = map[t];
+                    tg[i][c] = self.tg[s][c];
+                }
+            }
+        }
+        // Moore refinement
+        let mut part: Vec<usize> = acc.iter().map(|&a| if a { 1 } else { 0 }).collect();
+        let mut nparts = part.iter().copied().collect::<BTreeSet<_>>().len();
+        loop {
+            let mut sig: HashMap<(usize, Vec<usize>), usize> = HashMap::new();
+            let mut np = vec![0usize; n];
+            for s in 0..n {
+                let key: Vec<usize> = (0..self.nc).map(|c| if tr[s][c] == usize::MAX { usize::MAX } else { part[tr[s][c]] }).collect();
+                let l = sig.len();
+                let id = *sig.entry((part[s], key)).or_insert(l);
+                np[s] = id;
+            }
+            let newn = sig.len();
+            part = np;
+            if newn == nparts {
+                break;
+            }
+            nparts = newn;
+        }
+        let k = nparts;
+        let mut tr2 = vec![vec![usize::MAX; self.nc]; k];
+        let mut tg2 = vec![vec![0u32; self.nc]; k];
+        let mut acc2 = vec![false; k];
+        for s in 0..n {
+            acc2[part[s]] = acc[s];
+            for c in 0..self.nc {
+                if tr[s][c] != usize::MAX {
+                    tr2[part[s]][c] = part[tr[s][c]];
+                    tg2[part[s]][c] = tags.union(tg2[part[s]][c], tg[s][c]);
+                }
+            }
+        }
+        Dfa { n: k, nc: self.nc, tr: tr2, tg: tg2, acc: acc2, start: part[0] }
+    }
+
+    /// shortest string (as class ids) from state s to an accepting state
+    fn completion(&self, s: usize) -> Option<Vec<usize>> {
+        let mut prev: HashMap<usize, (usize, usize)> = HashMap::new();
+        let mut q = VecDeque::new();
+        q.push_back(s);
+        let mut seen = vec![false; self.n];
+        seen[s] = true;
+        while let Some(x) = q.pop_front() {
+            if self.acc[x] {
+                let mut out = vec![];
+                let mut cur = x;
+                while cur != s {
+                    let (p, c) = prev[&cur];
+                    out.push(c);
+                    cur = p;
+                }
+                out.reverse();
+                return Some(out);
+            }
+            for c in 0..self.nc {
+                let t = self.tr[x][c];
+                if t != usize::MAX && !seen[t] {
+                    seen[t] = true;
+                    prev.insert(t, (x, c));
+                    q.push_back(t);
+                }
+            }
+        }
+        None
+    }
+}
+
+// ---------------------------------------------------------------- symbol class labels
+fn class_label(al: &Alphabet, c: usize) -> String {
+    let (lo, hi) = al.range(c);
+    if lo >= 0x110000 {
+        return format!("knot{}", lo - 0x110000);
+    }
+    let cat = |x: u32| -> &'static str {
+        match x {
+            0x20 | 0x09 | 0x0A | 0x0D => "blank",
+            0x00..=0x1F | 0x7F => "control",
+            0x30 => "zero",
+            0x31..=0x39 => "digit",
+            0x41..=0x46 => "upper-hex",
+            0x47..=0x5A => "upper-alpha",
+            0x61..=0x66 => "lower-hex",
+            0x67..=0x7A => "lower-alpha",
+            0x85 | 0xA0 | 0x1680 | 0x2000..=0x200A | 0x2028 | 0x2029 | 0x202F | 0x205F | 0x3000 | 0x0B | 0x0C => "unicode-space",
+            0x80..=0x10FFFF => "non-ascii",
+            _ => "punct",
+        }
+    };
+    let a = cat(lo);
+    if a == "punct" && lo == hi {
+        return format!("'{}'", char::from_u32(lo).unwrap_or('?'));
+    }
+    if matches!(a, "lower-alpha" | "lower-hex" | "upper-alpha" | "upper-hex") && lo == hi {
+        return format!("{}:{}", a, char::from_u32(lo).unwrap_or('?'));
+    }
+    if a == "blank" && lo == hi {
+        return format!("blank:U+{:04X}", lo);
+    }
+    a.to_string()
+}
+
+fn rep_char(al: &Alphabet, c: usize) -> u32 {
+    al.range(c).0
+}
+
+// ---------------------------------------------------------------- comparison
+struct Div {
+    dir: &'static str,
+    tags: Vec<String>,
+    class: String,
+    witness: Vec<u32>,
+    at: usize,
+}
+
+fn compare(cx: &mut Ctx, ea: &Js, eb: &Js, names: (&'static str, &'static str)) -> (Vec<Div>, usize, usize, usize) {
+    let t0 = std::time::Instant::now();
+    let da = compile(cx, ea);
+    let t1 = std::time::Instant::now();
+    let db = compile(cx, eb);
+    let t2 = std::time::Instant::now();
+    if std::env::var("VF_TIMING").is_ok() {
+        eprintln!("dfa a={} ({:?}) b={} ({:?})", da.n, t1 - t0, db.n, t2 - t1);
+    }
+    let al = cx.al;
+    const D: usize = usize::MAX;
+    // minimised DFAs have no dead states: a transition exists iff it can still lead to acceptance
+    let mut seen: HashMap<(usize, usize), usize> = HashMap::new();
+    let mut nodes: Vec<(usize, usize, usize, usize)> = vec![]; // (a, b, parent, class)
+    let mut q = VecDeque::new();
+    seen.insert((da.start, db.start), 0);
+    nodes.push((da.start, db.start, usize::MAX, 0));
+    q.push_back(0usize);
+    let mut divs: BTreeMap<(String, String, String), Div> = BTreeMap::new();
+    let path = |nodes: &Vec<(usize, usize, usize, usize)>, mut i: usize| -> Vec<u32> {
+        let mut out = vec![];
+        while nodes[i].2 != usize::MAX {
+            out.push(rep_char(al, nodes[i].3));
+            i = nodes[i].2;
+        }
+        out.reverse();
+        out
+    };
+    let a_empty = !da.live()[da.start];
+    let b_empty = !db.live()[db.start];
+    while let Some(i) = q.pop_front() {
+        let (pa, pb, _, _) = nodes[i];
+        let acc_a = !a_empty && da.acc[pa];
+        let acc_b = !b_empty && db.acc[pb];
+        if acc_a != acc_b {
+            let dir = if acc_a { names.0 } else { names.1 };
+            let tags = vec!["<end>".to_string()];
+            let w = path(&nodes, i);
+            let key = (dir.to_string(), tags.join("+"), "$end".to_string());
+            divs.entry(key).or_insert(Div { dir, tags, class: "$end".into(), witness: w.clone(), at: w.len() });
+        }
+        for c in 0..al.n() {
+            if !al.valid(c) {
+                continue;
+            }
+            let ta = if a_empty { D } else { da.tr[pa][c] };
+            let tb = if b_empty { D } else { db.tr[pb][c] };
+            let ga = ta != D;
+            let gb = tb != D;
+            if ga && !gb {
+                let tags = cx.tags.show(da.tg[pa][c]);
+                let mut w = path(&nodes, i);
+                let at = w.len();
+                w.push(rep_char(al, c));
+                if let Some(comp) = da.completion(ta) {
+                    for cc in comp {
+                        w.push(rep_char(al, cc));
+                    }
+                }
+                let cl = class_label(al, c);
+                let key = (names.0.to_string(), tags.join("+"), cl.clone());
+                divs.entry(key).or_insert(Div { dir: names.0, tags, class: cl, witness: w, at });
+            } else if gb && !ga {
+                let tags = cx.tags.show(db.tg[pb][c]);
+                let mut w = path(&nodes, i);
+                let at = w.len();
+                w.push(rep_char(al, c));
+                if let Some(comp) = db.completion(tb) {
+                    for cc in comp {
+                        w.push(rep_char(al, cc));
+                    }
+                }
+                let cl = class_label(al, c);
+                let key = (names.1.to_string(), tags.join("+"), cl.clone());
+                divs.entry(key).or_insert(Div { dir: names.1, tags, class: cl, witness: w, at });
+            } else if ga && gb {
+                if !seen.contains_key(&(ta, tb)) {
+                    seen.insert((ta, tb), nodes.len());
+                    nodes.push((ta, tb, i, c));
+                    q.push_back(nodes.len() - 1);
+                }
+            }
+        }
+    }
+    (divs.into_values().collect(), da.n, db.n, nodes.len())
+}
+
+fn witness_json(w: &[u32]) -> String {
+    let mut o = String::from("[");
+    for (i, c) in w.iter().enumerate() {
+        if i > 0 {
+            o.push(',');
+        }
+        o.push_str(&c.to_string());
+    }
+    o.push(']');
+    o
+}
+
+pub fn main(args: &[String]) {
+    let src = std::fs::read(&args[0]).expect("read spec");
+    let mut p = P { s: &src, i: 0 };
+    let spec = p.val();
+    let mut cuts = BTreeSet::new();
+    cuts.insert(0u32);
+    for c in [0x09u32, 0x0A, 0x0B, 0x0D, 0x0E, 0x20, 0x21, 0x30, 0x31, 0x3A, 0x41, 0x47, 0x5B, 0x61, 0x67, 0x7B, 0x7F, 0x80, 0x85, 0x86, 0xA0, 0xA1, 0x1680, 0x1681,
+        0x2000, 0x200B, 0x2028, 0x202A, 0x202F, 0x2030, 0x205F, 0x2060, 0x3000, 0x3001, 0xD800, 0xE000, 0x110000, 0x110001, 0x110002, 0x110003, 0x110004] {
+        cuts.insert(c);
+    }
+    collect_cuts(&spec, &mut cuts);
+    let cuts: Vec<u32> = cuts.into_iter().filter(|c| *c < MAXSYM).collect();
+    let al = Alphabet { cuts };
+    let defs: BTreeMap<String, Js> = match spec.get("defs") {
+        Js::Obj(m) => m.clone(),
+        _ => BTreeMap::new(),
+    };
+    let mut cx = Ctx { al: &al, defs: &defs, tags: Tags::new(), memo: HashMap::new() };
+    let mut out = String::from("{");
+    out.push_str(&format!("\"classes\":{},", al.n()));
+    out.push_str("\"compare\":[");
+    for (i, c) in spec.get("compare").arr().iter().enumerate() {
+        if i > 0 {
+            out.push(',');
+        }
+        let (divs, sa, sb, prod) = compare(&mut cx, c.get("impl"), c.get("rfc"), ("impl-only", "rfc-only"));
+        out.push_str(&format!("{{\"id\":{},\"impl_states\":{},\"rfc_states\":{},\"product_states\":{},\"divergences\":[", jstr(c.get("id").str()), sa, sb, prod));
+        for (j, d) in divs.iter().enumerate() {
+            if j > 0 {
+                out.push(',');
+            }
+            let tags: Vec<String> = d.tags.iter().map(|t| jstr(t)).collect();
+            out.push_str(&format!(
+                "{{\"dir\":{},\"tags\":[{}],\"class\":{},\"witness\":{},\"at\":{}}}",
+                jstr(d.dir),
+                tags.join(","),
+                jstr(&d.class),
+                witness_json(&d.witness),
+                d.at
+            ));
+        }
+        out.push_str("]}");
+    }
+    out.push_str("],\"equiv\":[");
+    for (i, c) in spec.get("equiv").arr().iter().enumerate() {
+        if i > 0 {
+            out.push(',');
+        }
+        let (divs, _, _, prod) = compare(&mut cx, c.get("a"), c.get("b"), ("a-only", "b-only"));
+        out.push_str(&format!("{{\"id\":{},\"product_states\":{},\"equal\":{},\"witness\":{},\"dir\":{}}}", jstr(c.get("id").str()), prod, divs.is_empty(),
+            divs.first().map(|d| witness_json(&d.witness)).unwrap_or("null".into()), jstr(divs.first().map(|d| d.dir).unwrap_or(""))));
+    }
+    out.push_str("],\"overlap\":[");
+    for (i, c) in spec.get("overlap").arr().iter().enumerate() {
+        if i > 0 {
+            out.push(',');
+        }
+        // L(a).Sigma* ∩ L(b).Sigma*  : first the minimal DFAs, then "accept as soon as an accepting state was seen"
+        let da = compile(&mut cx, c.get("a"));
+        let db = compile(&mut cx, c.get("b"));
+        // BFS over pairs with sticky acceptance flags
+        let mut seen: HashMap<(usize, usize, bool, bool), usize> = HashMap::new();
+        let mut nodes: Vec<(usize, usize, bool, bool, usize, usize)> = vec![];
+        let mut q = VecDeque::new();
+        let ea = !da.live()[da.start];
+        let eb = !db.live()[db.start];
+        let mut found: Option<usize> = None;
+        if !ea && !eb {
+            let s = (da.start, db.start, da.acc[da.start], db.acc[db.start]);
+            seen.insert(s, 0);
+            nodes.push((s.0, s.1, s.2, s.3, usize::MAX, 0));
+            q.push_back(0usize);
+        }
+        const D: usize = usize::MAX;
+        while let Some(i) = q.pop_front() {
+            let (pa, pb, fa, fb, _, _) = nodes[i];
+            if fa && fb {
+                found = Some(i);
+                break;
+            }
+            for cl in 0..al.n() {
+                if !al.valid(cl) {
+                    continue;
+                }
+                let ta = if fa { pa } else if pa == D { D } else { da.tr[pa][cl] };
+                let tb = if fb { pb } else if pb == D { D } else { db.tr[pb][cl] };
+                if (!fa && ta == D) || (!fb && tb == D) {
+                    continue;
+                }
+                let nfa_ = fa || da.acc[ta];
+                let nfb_ = fb || db.acc[tb];
+                let key = (if nfa_ { 0 } else { ta }, if nfb_ { 0 } else { tb }, nfa_, nfb_);
+                if !seen.contains_key(&key) {
+                    seen.insert(key, nodes.len());
+                    nodes.push((ta, tb, nfa_, nfb_, i, cl));
+                    q.push_back(nodes.len() - 1);
+                }
+            }
+        }
+        match found {
+            Some(mut i) => {
+                let mut w = vec![];
+                while nodes[i].4 != usize::MAX {
+                    w.push(rep_char(&al, nodes[i].5));
+                    i = nodes[i].4;
+                }
+                w.reverse();
+                out.push_str(&format!("{{\"id\":{},\"overlap\":true,\"witness\":{}}}", jstr(c.get("id").str()), witness_json(&w)));
+            }
+            None => out.push_str(&format!("{{\"id\":{},\"overlap\":false,\"witness\":null}}", jstr(c.get("id").str()))),
+        }
+    }
+    out.push_str("],\"facts\":[");
+    for (i, c) in spec.get("facts").arr().iter().enumerate() {
+        if i > 0 {
+            out.push(',');
+        }
+        let d = compile(&mut cx, c.get("e"));
+        let empty = !d.live()[d.start];
+        let minlen = if empty { -1 } else { d.completion(d.start).map(|w| w.len() as i64).unwrap_or(-1) };
+        let mut first = BTreeSet::new();
+        let mut last = BTreeSet::new();
+        if !empty {
+            for cl in 0..al.n() {
+                if d.tr[d.start][cl] != usize::MAX {
+                    first.insert(class_label(&al, cl));
+                }
+            }
+            for q in 0..d.n {
+                for cl in 0..al.n() {
+                    let t = d.tr[q][cl];
+                    if t != usize::MAX && d.acc[t] {
+                        last.insert(class_label(&al, cl));
+                    }
+                }
+            }
+        }
+        let f: Vec<String> = first.iter().map(|x| jstr(x)).collect();
+        let l: Vec<String> = last.iter().map(|x| jstr(x)).collect();
+        out.push_str(&format!("{{\"id\":{},\"states\":{},\"min_len\":{},\"nullable\":{},\"first\":[{}],\"last\":[{}]}}", jstr(c.get("id").str()), d.n, minlen, !empty && d.acc[d.start], f.join(","), l.join(",")));
+    }
+    out.push_str("]}");
+    println!("{}", out);
 }
